@@ -61,9 +61,9 @@ CHECKS = {
    text="Operator tables are built through the real Op::prefix/postfix/infix, BitOr and PrattParser::op (resp. ConstPrattParser::new_const, PrecClimber::new) code: all tables with 2 operators, 48 seeded (quick) / all (thorough) with 3, 150 seeded with 4 (thorough) - every affix and associativity per operator and every split into precedence levels. For every token sequence of 1..5 (quick) / 6 (thorough) tokens with symbolic kinds the tree built by the real parse() is compared, on each well-formed sequence, with the classical operator-precedence tree (right power p for left-associative infix, p-1 for right-associative and prefix); every token must be used exactly once in order. ConstPrattParser and (infix-only tables, one associativity per level) PrecClimber must give the same tree.",
    note="Pairs are stubs answering only as_rule(); mapping closures are host closures building a tree. BTreeMap::{insert,get}, Peekable, zip/fold summarised; no native replay for this check (pure table/recursion code). Longer sequences and larger tables are outside the claim."),
  "C07": dict(level="other", design="§5 C07", engine="M",
-   technique="symbolic execution of the MIR of pest_meta::parser::unescape and of the checked-in meta-parser's string/character rules on symbolic text; z3 decides every branch; compared with a reference unescaper and replayed natively through a cfg-guarded hook",
-   text="Reduced form: only the literal-unescaping clause of the property. (A) For every valid UTF-8 string of 0..N bytes (N=4/5) and 15 escape templates with symbolic hex digits/escape letters, whenever the text is a well-formed escape sequence denoting scalar values the real unescape() returns exactly the denoted string. (B) For every text of 2..N+1 bytes and 10 templates that the checked-in meta-parser accepts as a whole `string` or `character` token, unescape() succeeds or the front-end reports a located error (never a panic).",
-   note="Not decided by this check: operator structure / precedence / associativity, repetition counts, PEEK indices and the round trip through arbitrary concrete spellings (would need symbolic execution of consume_rules over Pairs, see DESIGN.md §5 C07); PrattParser itself is C13. Trusted: summaries of String/Chars/take/take_while/from_str_radix (validated natively), reference unescaper."),
+   technique="symbolic execution of the MIR of pest_meta's reader (checked-in meta-parser, consume_rules incl. validate_ast, unescape) on grammar texts with symbolic spacing bytes and symbolic literal characters; z3 decides every branch; compared with the abstract grammar that was written",
+   text="(C) round trip: 60 (quick) / 400 (thorough) abstract rules covering every expression form, both nestings of every pair of operator levels (precedence, associativity), prefix-vs-postfix, counts and PEEK indices are written in concrete syntax with only the parentheses precedence requires; 2-3 of the token gaps are symbolic whitespace bytes (space/tab/newline), one literal character is symbolic, a leading | is added to choices; the real parse + consume_rules run from MIR and must return exactly the written rule (name, modifier, operator structure, literal contents, range bounds, counts, indices) on every path. (A) unescape() equals a reference unescaper on every well-formed escape sequence up to N bytes and on 15 escape templates; (B) every text the meta-parser accepts as a string/character token is unescaped or reported as a located error, never a panic.",
+   note="Comments / doc comments in arbitrary positions, redundant parentheses and multi-rule grammars are exercised only by C14's templates, not here. Trusted: the writer in lib/props/c07.py (40 lines), summaries (native replay for (A); (C) violations are replayed through pest_meta's front-end), z3."),
  "C04": dict(level="model_checking", design="§5 C04", engine="M",
    technique="symbolic execution of the MIR of pest/src/iterators (Pairs, Pair, FlatPairs, Tokens, PairsBuilder, LineIndex) with the interleaving of next/next_back/len/peek chosen by symbolic selectors (z3 forks on them); every answer compared with the explicit tree",
    text="Every ordered forest with <= 4 (quick) / 5 (thorough) nodes and height <= 3 is built through the real PairsBuilder (rule, rule_with, tag, build); the produced queue must be balanced with matching partner indices. On the Pairs, FlatPairs and Tokens views every interleaving of 4 (quick) / 6 (thorough) operations next / next_back / len+size_hint / peek is executed from MIR and each answer (which pair or token, how many left) is compared with the tree; every yielded pair is checked for as_rule, as_str, as_span, line_col (against the newline/character count), into_inner().len() and as_node_tag; Pairs::single(pair) must be a one-pair view of that pair from both ends; Pairs::as_str must be the covered text.",
